@@ -36,11 +36,27 @@ def strat_map(with_rot=False):
             n = draw(st.integers(1, 6))
             ridges = []
             y = draw(st.integers(10, 20))
+            # 'parallel' pages: all ridges share one slope, so they stay >= 15 px apart although their bounding boxes overlap
+            common = draw(st.sampled_from([None, None, 0.04, -0.06, 0.08, -0.1]))
+            if common is not None:
+                rise = int(abs(common) * W) + 2
+                H = H + rise
+                if common < 0:
+                    y += rise
             for _ in range(n):
-                if y > H - 12:
+                if y > H - 12 - (int(abs(common) * W) + 2 if (common is not None and common > 0) else 0):
                     break
-                length = draw(st.integers(6, W - 20))
+                length = draw(st.integers(6, W - 20)) if common is None or draw(st.booleans()) else draw(st.integers(max(6, W - 60), W - 20))
                 x0 = draw(st.integers(6, W - 8 - length))
+                if common is not None:
+                    slope = common
+                    # same line family: y measured at x = 0
+                    yy = y
+                    ridges.append(dict(x0=x0, x1=x0 + length, y=float(yy) + common * x0, slope=common,
+                                       asc=float(draw(st.integers(2, 12))), desc=float(draw(st.integers(1, 6))), amp=1.0,
+                                       ends=draw(st.booleans()) and length >= 12))
+                    y += draw(st.integers(16, 30))      # parallel ridges: >= 15 px apart everywhere, bounding boxes may overlap
+                    continue
                 slope = draw(st.sampled_from([0.0, 0.0, 0.03, -0.05, 0.1, -0.1]))
                 # keep the sloped ridge inside its band
                 if abs(slope) * length > 6:
@@ -60,6 +76,7 @@ def strat_map(with_rot=False):
             c = dict(H=H, W=W, ds=ds, ridges=ridges)
             if with_rot:
                 c["rot"] = draw(st.sampled_from([0, 1, 2, 3]))
+                c["trim"] = (draw(st.integers(0, 7)), draw(st.integers(0, 7)))      # page sides need not be multiples of ds
             return c
         return case()
     return make
@@ -183,6 +200,10 @@ def body_detect(ctx, case):
     eng.parsenet = StubParseNet(ds)
     m = paint(case)
     img_rot = np.repeat(np.repeat(m, ds, axis=0), ds, axis=1)     # what detect() sees after its own rotation
+    ty, tx = case.get("trim", (0, 0))
+    ty, tx = min(ty, ds - 1), min(tx, ds - 1)
+    if ty or tx:
+        img_rot = img_rot[:img_rot.shape[0] - ty, :img_rot.shape[1] - tx]
     orig = np.ascontiguousarray(np.rot90(img_rot, k=-rot))        # the page handed to detect()
     Ho, Wo = orig.shape[:2]
     desc = lambda: "case=%r" % (case,)
@@ -218,6 +239,21 @@ def body_detect(ctx, case):
             d = min(0.0 if geom.point_in_polygon(v, o) else geom.boundary_dist(v, o) for o in outlines)
             ctx.check(d <= 8.0, "region_polygon_not_in_original_frame",
                       lambda: "region vertex %r is %.1f px from the nearest text line outline; regions %r; " % (v, d, [np.asarray(q).tolist() for q in p_list]) + desc())
+    # metamorphic: analysing the page in a rotated orientation == analysing the rotated page upright and mapping the result
+    # back with the definition of np.rot90 (same maps, so the only difference is the library's own back-mapping): within 1 px
+    if rot != 0:
+        with contextlib.redirect_stdout(io.StringIO()):
+            up = ctx.must("detect_raises", eng.detect, np.ascontiguousarray(np.rot90(orig, k=rot)), 0)
+        for name, got_list, up_list in (("baseline", b_list, up[1]), ("outline", t_list, up[3]), ("region", p_list, up[0])):
+            ctx.check(len(got_list) == len(up_list), "rotated_analysis_differs_in_count", lambda: "%s: %d vs %d; " % (name, len(got_list), len(up_list)) + desc())
+            mapped = [np.asarray([to_orig((float(x), float(y))) for x, y in np.asarray(a)]) for a in up_list]
+            for g in got_list:
+                g = np.asarray(g, dtype=np.float64)
+                cands = [mm for mm in mapped if mm.shape == g.shape]
+                err = min([float(np.abs(mm - g).max()) for mm in cands] + [float("inf")])
+                ctx.check(err <= 1.0 + 1e-3, "rotated_coordinates_off_by_more_than_one_pixel",
+                          lambda: "%s %r: nearest upright result mapped back differs by %.2f px; page %dx%d ds %d rot %d; " % (name, g.tolist()[:3], err, Wo, Ho, ds, rot) + desc())
+        ctx.event("rotation_metamorphic_checked")
     if Ho != Wo and rot != 0 and len(case["ridges"]) >= 1:
         ctx.nontrivial(repr(case))
 
